@@ -7,6 +7,7 @@ independent oracle written from the Michelson reference with plain Python intege
 at pytezos).  A second stream probes the CPython primitives the mirror is built on (`to_bytes`, `from_bytes`,
 `bit_length`, `divmod`, shifts, `& | ^ ~`, `lstrip`) against their Lean definitions.
 """
+import concurrent.futures
 import multiprocessing
 import os
 
@@ -322,7 +323,7 @@ class Gen:
             if r.random() < 0.5:
                 b[0] = r.choice([0x00, 0x7f, 0x80, 0xff])
             return bytes(b)
-        if role == 'shift' and r.random() < 0.8:
+        if role == 'shift' and ty == 'nat' and r.random() < 0.8:
             return r.choice(SHIFTS) if r.random() < 0.5 else r.randrange(0, 300)
         if ty == 'mutez':
             k = r.randrange(6)
@@ -341,7 +342,7 @@ class Gen:
             return [False, True]
         if ty == 'bytes':
             return BYTES_POOL[:8]
-        if role == 'shift':
+        if role == 'shift' and ty == 'nat':
             return SHIFTS
         if ty == 'mutez':
             return [v for v in SMALL if v < MUTEZ_LIM] + [MUTEZ_LIM - 2]
@@ -477,7 +478,15 @@ def defect_key(case, want, got):
         return 'BYTES:int:positive-with-top-bit-set'
     if op == 'SUB_MUTEZ' and tys == 'mutez,mutez' and args[0][1] < args[1][1]:
         return 'SUB_MUTEZ:negative-difference'
-    return f'{op}({tys}): {line_of(case)}'
+    if want == 'fail':
+        kind = 'value-instead-of-failure'
+    elif got.startswith('fail'):
+        kind = 'failure-instead-of-None' if want.endswith(' None') else 'failure-instead-of-value'
+    elif got.split(' ')[1:2] != want.split(' ')[1:2]:
+        kind = 'wrong-result-type'
+    else:
+        kind = 'wrong-value'
+    return f'{op}({tys}): {kind}'
 
 
 def shrink(case, want_key, budget=80):
@@ -531,16 +540,19 @@ def bits_bucket(case):
     return '>1024b'
 
 
-def process(ctx, pool, cases, seen_keys):
+def launch(ctx, pool, executor, cases):
+    """start the real interpreter (worker pool, cases sharded by index) and the Lean mirror (one driver process) on a batch"""
     lines = [line_of(c) for c in cases]
     chunks = [cases[i:i + 500] for i in range(0, len(cases), 500)]
-    if pool is not None:
-        async_res = pool.map_async(_impl_chunk, chunks)
-        model = ctx.model(lines)
-        impl = [x for ch in async_res.get() for x in ch]
-    else:
-        model = ctx.model(lines)
-        impl = [x for ch in chunks for x in _impl_chunk(ch)]
+    impl_job = pool.map_async(_impl_chunk, chunks) if pool is not None else None
+    model_job = executor.submit(ctx.model, lines)
+    return cases, lines, chunks, impl_job, model_job
+
+
+def judge(ctx, batch, seen_keys):
+    cases, lines, chunks, impl_job, model_job = batch
+    model = model_job.result()
+    impl = [x for ch in (impl_job.get() if impl_job is not None else map(_impl_chunk, chunks)) for x in ch]
     for idx, case in enumerate(cases):
         op, args = case
         got = impl[idx]
@@ -588,19 +600,26 @@ def run(ctx):
         'near multiples); (PY) CPython primitives vs their Lean definitions. non-trivial = Michelson-typed operands with a numeric '
         'operand of magnitude > 1, a non-empty byte string or a bool')
     g = Gen(ctx.rng, 40 if quick else 64)
-    n_random = int(os.environ.get('VERIF_C16_RANDOM', 7000 if quick else 700000))
+    n_random = int(os.environ.get('VERIF_C16_RANDOM', 7000 if quick else 600000))
     workers = min(16, os.cpu_count() or 1)
     seen_keys = set()
     pool = None
     try:
+        impl_run(('ADD', [('int', 1), ('int', 1)]))      # import pytezos and build the parser once, before forking
         if workers > 1:
             pool = multiprocessing.get_context('fork').Pool(workers)
-        process(ctx, pool, structured_cases(g, ctx.tier), seen_keys)
-        left = n_random
-        while left > 0:
-            n = min(left, 50000)
-            process(ctx, pool, [random_case(g) for _ in range(n)], seen_keys)
-            left -= n
+        # batches are generated in order from the one PRNG; batch k+1 runs (interpreter pool + Lean driver) while
+        # batch k is judged
+        with concurrent.futures.ThreadPoolExecutor(1) as executor:
+            pending = launch(ctx, pool, executor, structured_cases(g, ctx.tier))
+            left = n_random
+            while left > 0:
+                n = min(left, 50000)
+                nxt = launch(ctx, pool, executor, [random_case(g) for _ in range(n)])
+                judge(ctx, pending, seen_keys)
+                pending = nxt
+                left -= n
+            judge(ctx, pending, seen_keys)
     finally:
         if pool is not None:
             pool.terminate()
